@@ -77,6 +77,8 @@ def report(chk, results, pid="C01"):
 
 def run(chk):
     pipefam.standard_obligations(chk, "C01.v")
+    pipefam.overlap_unit(chk, chk.rng("overlap_unit"))
+    pipefam.merge_unit(chk, chk.rng("merge_unit"))
     n = 120 if chk.tier == "quick" else 3000
     cases = cases_for(chk, n)
     results = evaluate(chk, cases)
